@@ -166,7 +166,7 @@ def redirect_foreign(root, orig, repl):
 
 
 def _strip_crate(path):
-    return re.sub(r"^(crate::|minidump_writer::)", "", path)
+    return re.sub(r"^(crate::|minidump_writer::)", "", path.replace(" ", ""))
 
 
 def confirm(pid, outcome, o, meta, workdir):
